@@ -65,6 +65,9 @@ pub struct Outcome {
     pub trace: Vec<(String, u64)>,
     /// work ticks by kind (loop heads reached inside the library)
     pub tick_kinds: Vec<(String, u64)>,
+    /// bounded loops: (kind, largest iteration ordinal, largest budget reported by the library,
+    /// largest excess of an ordinal over the budget reported with it)
+    pub loop_iters: Vec<(String, u64, u64, u64)>,
 }
 
 impl Outcome {
@@ -85,6 +88,7 @@ impl Outcome {
             counts: Vec::new(),
             trace: Vec::new(),
             tick_kinds: Vec::new(),
+            loop_iters: Vec::new(),
         }
     }
     pub fn unresolved(why: &str) -> Self {
@@ -238,6 +242,7 @@ where
     fired.extend(kfired);
     let ticks = delaunay::verif::tick::total();
     let tick_kinds = own(delaunay::verif::tick::by_kind());
+    let loop_iters: Vec<(String, u64, u64, u64)> = delaunay::verif::tick::iters().into_iter().map(|(k, a, b, c)| (k.to_string(), a, b, c)).collect();
     delaunay::verif::tick::reset(u64::MAX);
     delaunay::verif::knob::set_all(&[]);
     delaunay::verif::uuid::seed(None);
@@ -257,6 +262,7 @@ where
     };
     out.ticks = ticks;
     out.tick_kinds = tick_kinds;
+    out.loop_iters = loop_iters;
     out.counts = own(counts);
     out.fired = own(fired);
     out.trace = own(trace);
